@@ -434,6 +434,72 @@ pub fn fam_gadget(d: &mut Decider, tmax: usize) -> GSpec {
     g
 }
 
+/// Two phase gadgets with 8..10 legs on nearly the same support: 9..10 non-Clifford support
+/// spiders (so that full simplification cannot remove them), two hubs with a T leaf each; the
+/// second support is the first one minus one or two spiders. The support spiders take their
+/// numbers before, after, or interleaved with the hubs and leaves (what "the same support" means
+/// to code that sorts, packs or hashes vertex ids depends on the numbering only). T-count 11..12,
+/// beyond the usual bound of the closed sub-batch; 13..14 spiders.
+pub fn fam_big_gadgets(d: &mut Decider) -> GSpec {
+    let mut g = GSpec::empty();
+    let m = 9 + d.choose("bg.m", 2);
+    // creation order decides the numbering: 0 support first, 1 gadgets first, 2 interleaved
+    let order = d.choose("bg.order", 3);
+    let mut support = vec![];
+    let mut hubs = vec![];
+    let mk_gadget = |g: &mut GSpec, d: &mut Decider| -> usize {
+        let hp = pauli_phase(d);
+        let hub = g.z(hp);
+        let ph = t_phase(d);
+        let leaf = g.z(ph);
+        g.h(hub, leaf);
+        hub
+    };
+    if order == 1 {
+        hubs.push(mk_gadget(&mut g, d));
+        hubs.push(mk_gadget(&mut g, d));
+    }
+    for i in 0..m {
+        if order == 2 && (i == 2 || i == m - 2) {
+            hubs.push(mk_gadget(&mut g, d));
+        }
+        let ph = t_phase(d);
+        support.push(g.z(ph));
+    }
+    while hubs.len() < 2 {
+        hubs.push(mk_gadget(&mut g, d));
+    }
+    // the first gadget sits on the whole support, the second one leaves out 1..2 spiders taken
+    // from the low end, the high end or anywhere
+    let drop = 1 + d.choose("bg.drop", 2);
+    let mut left_out = vec![];
+    for k in 0..drop {
+        let i = match d.choose("bg.where", 3) {
+            0 => k,
+            1 => m - 1 - k,
+            _ => d.choose("bg.any", m),
+        };
+        if !left_out.contains(&i) {
+            left_out.push(i);
+        }
+    }
+    for (i, &s) in support.iter().enumerate() {
+        g.h(hubs[0], s);
+        if !left_out.contains(&i) {
+            g.h(hubs[1], s);
+        }
+    }
+    // a few edges inside the support
+    for i in 0..m {
+        for j in (i + 1)..m {
+            if d.coin("bg.ss", 1, 8) {
+                g.h(support[i], support[j]);
+            }
+        }
+    }
+    g
+}
+
 /// v (T) and w (non-T) joined through 1..4 degree-2 T spiders — the shape the
 /// dynamic-T driver's pair decomposition looks for — inside a host.
 pub fn fam_tpair(d: &mut Decider, tmax: usize) -> GSpec {
@@ -499,8 +565,9 @@ pub fn fam_isolated(d: &mut Decider, tmax: usize) -> GSpec {
 
 /// A closed graph-like diagram from one of the families (or a disjoint union).
 pub fn closed_diagram(d: &mut Decider, nmax: usize, tmax: usize) -> (GSpec, &'static str) {
-    let fam = d.choose("fam", 14);
+    let fam = d.choose("fam", 15);
     let (mut g, name) = match fam {
+        14 => (fam_big_gadgets(d), "big_gadgets"),
         12 | 13 => {
             // repeated components: several copies of the same small multi-T component next to
             // copies of another one (splitting, sharing or de-duplicating work between identical
